@@ -21,6 +21,12 @@
     (`c03_kinds_partial`, `c03_not_on_return_exception_partial`).  A nameless location that matched becomes the
     named location of that function: the installed triggers are state (`Trigger.runS`); `run` (fixed triggers) is
     that run exactly when every method location has a name (`c03_run_faithful_partial`).
+  * "A source file with that name": the handler compares the tracepoint's path with the file NAME of the executing
+    code (`PyX.basename`, a hand-written rendering of `os.path.basename` for POSIX paths — `c03_basename_spec`, and
+    compared with the real `location_from_event` on boundary paths by the `loc` stream): a tracepoint path with a
+    directory part never acts (`c03_dir_path_never_matches`), same-named files in different directories are one file
+    to every location (`c03_same_name_any_dir`); at events of a file with another name NO location (nameless and
+    unmatchable ones included) says "here" or raises (`c03_other_file_never`, `c03_other_file_no_action`).
   * Delivered events only: `__trace_call` returns `None` for a `call` event while no tracepoint is installed, so a
     frame entered during that time is never line-traced, also after a configuration arrives; the property (and
     every theorem here) quantifies over the events Python delivers to the trace function.
@@ -263,6 +269,82 @@ theorem c03_thread (cfg : List Trig) (gs : List (Tid × Event)) (t : Tid) :
       (runG cfg Store.empty gs).1 t = (run cfg none (proj t gs)).1 := by
   have := runG_proj cfg gs Store.empty t
   exact ⟨this.2, this.1⟩
+
+/-! ### "a source file with that name": how the file of an event is compared -/
+
+/-- model lemma: **`PyX.basename`** (hand-written rendering of `os.path.basename` for POSIX paths, compared with the real
+    `location_from_event` on boundary paths by the `loc` stream) is the text after the last `/`: it contains no `/`
+    and the path is a directory part — empty or ending in `/` — followed by it. -/
+theorem c03_basename_spec (s : String) :
+    '/' ∉ (PyX.basename s).toList ∧
+    ∃ d : List Char, s.toList = d ++ (PyX.basename s).toList ∧ (d = [] ∨ d.getLast? = some '/') :=
+  ⟨basename_no_slash s, basename_suffix s⟩
+
+/-- **a tracepoint path with a directory part never acts** — the handler compares the tracepoint's path with the
+    file NAME of the executing code: a line or method tracepoint whose path contains a `/` (`src/app.py`,
+    `/srv/app/app.py`) is at no event of any program, whatever file executes (the check lists "tracepoint paths are
+    file names" as an assumption: this is why). -/
+theorem c03_dir_path_never_matches (p : String) (hp : '/' ∈ p.toList) (n : Int) (f : String) (ev : Event) :
+    (Loc.line p n).matches ev = false ∧ (Loc.func p f).matches ev = false := by
+  refine ⟨?_, ?_⟩
+  · cases h : (Loc.line p n).matches ev with
+    | false => rfl
+    | true =>
+      have := ((c03_line_iff p n ev).mp h).2.1
+      exact absurd (this ▸ hp) (basename_no_slash ev.path)
+  · cases h : (Loc.func p f).matches ev with
+    | false => rfl
+    | true =>
+      have := ((c03_func_iff p f ev).mp h).2.1
+      exact absurd (this ▸ hp) (basename_no_slash ev.path)
+
+/-- **the directory of the executing file is never looked at** — two events that agree on kind, file NAME, line and
+    function get the same answer from every location (line, method with or without a name, unmatchable): same-named
+    files in different directories are one file to a tracepoint ("a source file with that name"). -/
+theorem c03_same_name_any_dir (l : Loc) (ev ev' : Event) (hk : ev.kind = ev'.kind)
+    (hp : PyX.basename ev.path = PyX.basename ev'.path) (hl : ev.line = ev'.line) (hf : ev.func = ev'.func) :
+    l.check ev = l.check ev' ∧ l.matches ev = l.matches ev' := by
+  have : l.check ev = l.check ev' := by
+    simp only [Loc.check, locationFromEvent, hk, hp, hl, hf]
+  exact ⟨this, by simp only [Loc.matches, this]⟩
+
+example : (Loc.line "src/a.py" 3).matches ⟨"line", "src/a.py", 3, "f", 0, 0, [], []⟩ = false ∧
+    (Loc.line "a.py" 3).matches ⟨"line", "src/a.py", 3, "f", 0, 0, [], []⟩ = true ∧
+    (Loc.line "a.py" 3).matches ⟨"line", "/other/dir/a.py", 3, "g", 0, 0, [], []⟩ = true ∧
+    (Loc.line "a.py" 3).matches ⟨"line", "/other/dir/xa.py", 3, "g", 0, 0, [], []⟩ = false ∧
+    (Loc.line "a.py" 3).matches ⟨"line", "a.py/", 3, "g", 0, 0, [], []⟩ = false := by decide
+
+/-- the path a tracepoint was configured with -/
+def locPath : Loc → String
+  | .line p _ => p
+  | .func p _ => p
+  | .nosource p => p
+  | .nameless p _ => p
+
+/-- **other files** (every kind of location — line, method with or without a name, unmatchable; no `named` hypothesis) —
+    at an event of a file with another NAME a location answers "not here": it neither says "here" nor raises. -/
+theorem c03_other_file_never (l : Loc) (ev : Event) (h : PyX.basename ev.path ≠ locPath l) :
+    l.check ev = some false ∧ l.matches ev = false := by
+  have hc : l.check ev = some false := by
+    cases l <;>
+      simp_all [Loc.check, Loc.atLocation, locationFromEvent, lineAtLocation, funcAtLocation, funcAtLocationNoSource,
+        funcAtLocationNameless, locPath]
+  exact ⟨hc, by simp [Loc.matches, hc]⟩
+
+/-- **a file no tracepoint names sees no action at all** — at every event (any kind) of a file whose name is the path
+    of no configured tracepoint, the trigger phase runs nothing — whatever the tracepoints are (nameless and
+    unmatchable method tracepoints included), whatever the gate says. -/
+theorem c03_other_file_no_action (resp custom : List Tp) (ev : Event)
+    (h : ∀ tp ∈ resp ++ custom, PyX.basename ev.path ≠ locPath tp.loc) :
+    fired (install resp custom) ev = [] := by
+  rw [List.eq_nil_iff_forall_not_mem]
+  intro a ha
+  obtain ⟨_, tp, htp, hm, _⟩ := (mem_fired resp custom ev a).mp ha
+  rw [(c03_other_file_never tp.loc ev (h tp htp)).2] at hm
+  exact absurd hm (by decide)
+
+example : fired (install [⟨.nameless "a.py" [("<module>", 0, 5)], [⟨0, .log⟩]⟩, ⟨.nosource "a.py", [⟨1, .log⟩]⟩]
+      [⟨.line "a.py" 5, [⟨2, .log⟩]⟩]) ⟨"line", "/x/b.py", 5, "<module>", 0, 0, [], []⟩ = [] := by decide
 
 /-! ### non-vacuity -/
 
